@@ -41,6 +41,14 @@ def run_standard(mod, ctx):
         t = time.time()
         model_out = vcore.run_model(ctx, lines)
         ctx.log("model ran %d ops in %.1fs" % (len(lines), time.time() - t))
+        kinds = {}
+        for l, m in zip(lines, model_out):
+            k = l.split(" ")[0] + " -> " + (m.split(" ")[0] if (m[:1] == "-" and len(m) > 1) or m.split(" ")[0] in ("0", "1", "misuse", "bad-args", "bad-op", "MODEL-DISAGREE") else "value")
+            kinds[k] = kinds.get(k, 0) + 1
+        ctx.stats["op_outcome_histogram"] = kinds
+        if any(m in ("bad-op", "bad-args", "MODEL-DISAGREE") for m in model_out):
+            bad = [l for l, m in zip(lines, model_out) if m in ("bad-op", "bad-args", "MODEL-DISAGREE")][:3]
+            raise BrokenCheck("generator produced ops the model driver rejects: %s" % bad)
         ctx.samples = [{"op": l[:300], "model": model_out[lines.index(l)][:200]} for l in ctx.samples]
         for cfg in cfgs:
             exe = vcore.build_hx(ctx, cfg[0], cfg[2])
